@@ -13,6 +13,29 @@ WH_NOTE = ("trusted: Coq 8.16.1 kernel (no axioms: Print Assumptions is 'Closed 
            "execution; Vec/VecDeque/hashbrown/serde modelled by contract; archetype-table order is an oracle input")
 
 CLAIMED = {
+    "C05": dict(engine="world-histories",
+                text="Proved: no history ever fails an unchecked access of the allocator/archetype table/world operations (every "
+                     "get_unchecked/unwrap_unchecked/unreachable_unchecked is a checked access in the model), also from deserialized "
+                     "worlds; views never select a column other than their component's; at the cell level the in-place column "
+                     "operations keep the first `length` cells of every column live (what makes from_raw_parts(ptr,length,cap) "
+                     "sound) and releasing such a store drops nothing twice. PARTIAL, carried by the correspondence on the real "
+                     "code: an auditing global allocator checks after every operation that blocks are released once, with the "
+                     "layout they were created with, and that every block obtained during a history is returned once all worlds are "
+                     "dropped (registries with zero-sized, over-aligned, heap-owning, 1/2/4/8/16-byte components); freed library "
+                     "blocks are poisoned and quarantined. No theorem about allocation layouts or the packed row buffer.",
+                technique="Rocq proof that Inv excludes every unchecked-access failure and that the cell-level column operations preserve a clean store + allocator audit of the real library on generated histories",
+                ref="DESIGN.md §7 C05"),
+    "C17": dict(engine="world-histories",
+                text="Cell-level model with a fault parameter (the k-th Drop callback of an operation panics, the operation stops where "
+                     "the code is unwound): proved safe for dropping a world and for overwriting a component for every k; refuted "
+                     "with witnesses for remove and clear (findings F8a/F8b, known classes K17a/K17b). On the real code a panic is "
+                     "injected into the k-th callback of every kind (Drop, Clone, Eq, Serialize, Deserialize, Debug) of every "
+                     "operation on small multi-column worlds, then every world is dropped under the auditing allocator: no value "
+                     "dropped twice, no block released twice or with a wrong layout; for remove/clear/overwrite the set of doubly "
+                     "dropped values is compared with the model's prediction. PARTIAL: clone_from (F8c, K17c), clone, serde, ==, "
+                     "Debug, shape changes and system bodies have no fault model; they are judged on the real code only.",
+                technique="Rocq proof/refutation over a cell-level fault model + exhaustive-position panic injection on the real library under a quarantining allocator",
+                ref="DESIGN.md §7 C17"),
     "C14": dict(engine="compile-family", note="CFAIL_NOTE",
                 text="Proved: whatever the modelled bounds accept (ContainsViews, Disjoint through the regenerated Merge table, resource "
                      "ContainsViews, Send/Sync bounds and returned-reference lifetimes regenerated from the source) holds no two "
@@ -193,7 +216,7 @@ def main():
         })
     engines = [
         {"name": "world-histories", "path": "lib/wh.py",
-         "serves_properties": ["C01", "C02", "C03", "C04", "C06", "C09", "C10", "C11", "C13", "C15", "C16"],
+         "serves_properties": ["C01", "C02", "C03", "C04", "C05", "C06", "C09", "C10", "C11", "C13", "C15", "C16", "C17"],
          "kind_free_text": "random+corpus operation histories run on the real library (harness/src/bin/wh.rs) and on the "
                            "extracted Gallina model (extract/wh_driver.ml), compared step by step; spec-side oracles "
                            "(reference map, structural invariant, ledger, equality, independence) on the implementation trace"},
